@@ -11,6 +11,7 @@ import MW.Lemmas.ImportLive
 import MW.Lemmas.ImportExact
 import MW.Lemmas.ImportJoinMain
 import MW.Lemmas.ImportExt
+import MW.Lemmas.ImportJoinExt
 namespace MW.Props.C07
 open MW MW.Model.Ledger MW.Model.Import MW.Lemmas.ImportPlan
 
@@ -744,6 +745,54 @@ theorem import_exact_extensions_partial (batch : Nat) (hb : batch > 0) (p : Para
     cases hk'
   · exact ⟨hI, h1, hU⟩
 
+open MW.Lemmas.ImportExact MW.Lemmas.ImportJoin MW.Lemmas.Ledger in
+/-- **import_exact_extensions_joined** (stage 2 of `import_exact_full`, TIP EXTENSIONS, OTHER WALLETS IN THE
+    INSTANCE; reorganisations are not covered).  At the import moment the other keystores' wallets are ready and
+    their books for the followed chain are in the store (`Inv` for the table without `w`), `w` has cursor 0 and
+    balance 0, the follower is at the node's tip.  Then ANY interleaving of rescan batches (any positive size) and tip
+    extensions (the node appends a block, the live follower — booking the READY wallets only — is notified at
+    once) whose final chain is valid keeps the invariant `XInvJ`; in particular, when `w` is done the store
+    satisfies C01's invariant `Inv` for the FULL keystore table and the node's whole chain — the blocks that
+    arrived during the rescan included — and the follower is at the node's tip.
+    Proof: `extend_scanJ` — on the joined store `filterBlock` with the ready wallets cannot tell the keystore table
+    from its restriction to them (`filterTxs_sub`), the library's `filterTxs_block` gives their relevance records, and
+    `addRelevantMined` on a block that is new to the store is the rescan's step (`import_tx_eq_live`), i.e.
+    `addTx_join` with the ready wallets active and `w`'s books passive (an input MAY hit a coin of `w`: it is
+    skipped, `spendFoldJ`); after the hand-over C01's `connect_sound`. -/
+theorem import_exact_extensions_joined (batch : Nat) (hb : batch > 0) (p : Params) (own : Own) (wallets : List Wid)
+    (w : Wid) (hKN : KeysNodup own) (hw : w ∈ wallets) (sys0 : XSys) (evs : List XEv)
+    (hI : Inv { p := p, own := own.filter (fun e => e.2.1 ≠ w), wallets := wallets, node := sys0.node } sys0.s sys0.node.chain)
+    (hAR : AllReady (own.filter (fun e => e.2.1 ≠ w)) (readyWallets sys0.s wallets))
+    (hne : (readyWallets sys0.s wallets).isEmpty = false)
+    (hG : ∃ G, sys0.node.chain[0]? = some G ∧ G.txs = [])
+    (hst : AMap.get sys0.s.status w = some ⟨some 0, false⟩) (hbal : AMap.get sys0.s.balance w = some 0)
+    (hbest : sys0.v.best.height + 1 = sys0.node.chain.length)
+    (hC : ChainOK { p := p, own := own, wallets := wallets, node := (evs.foldl (stepX batch p own wallets w) sys0).node })
+    (hnb : (evs.foldl (stepX batch p own wallets w) sys0).node.chain.length + batch < 2 ^ 64) :
+    XInvJ (KeysNodup sys0.s.unspent) p own wallets w (evs.foldl (stepX batch p own wallets w) sys0) ∧
+    (AMap.get (evs.foldl (stepX batch p own wallets w) sys0).s.status w = some ⟨none, false⟩ →
+      Inv { p := p, own := own, wallets := wallets, node := (evs.foldl (stepX batch p own wallets w) sys0).node }
+          (evs.foldl (stepX batch p own wallets w) sys0).s (evs.foldl (stepX batch p own wallets w) sys0).node.chain ∧
+        (evs.foldl (stepX batch p own wallets w) sys0).v.best.height + 1 =
+          (evs.foldl (stepX batch p own wallets w) sys0).node.chain.length) := by
+  obtain ⟨G, hG0, hGt⟩ := hG
+  obtain ⟨rest, hrest⟩ := foldX_chain batch p own wallets w evs sys0
+  have hC0 : ChainOK { p := p, own := own, wallets := wallets, node := sys0.node } :=
+    chainOK_prefix
+      (c := { p := p, own := own, wallets := wallets, node := (evs.foldl (stepX batch p own wallets w) sys0).node })
+      (c' := { p := p, own := own, wallets := wallets, node := sys0.node }) (rest := rest) rfl hrest hC
+  have hS := scanJ_fresh (c := { p := p, own := own, wallets := wallets, node := sys0.node }) (w := w) hKN hC0 hI hG0 hGt hbal
+  have hX := foldXJ_inv (u0 := KeysNodup sys0.s.unspent) hb hKN hw evs sys0 hC hnb
+    ⟨hbest, fun h => h, Or.inl ⟨⟨some 0, false⟩, 0, hst, rfl, rfl, Nat.zero_le _, hS, hAR, hne⟩⟩
+  refine ⟨hX, ?_⟩
+  intro hdone
+  obtain ⟨h1, _, h2⟩ := hX
+  rcases h2 with ⟨ws, k, hst', hk', _⟩ | ⟨_, hI', _⟩
+  · rw [hdone] at hst'
+    cases hst'
+    cases hk'
+  · exact ⟨hI', h1⟩
+
 open MW.Lemmas.ImportExact in
 /-- the stage-2 events are events of `import_exact_full`'s semantics (`stepEv`): a batch is `Ev.batch`, an extension
     is the node movement `Ev.node (chain ++ [b])` followed by the notification `Ev.block b` -/
@@ -773,12 +822,14 @@ theorem stepX_is_stepEv (batch : Nat) (p : Params) (own : Own) (wallets : List W
     reorganisations above / at / below the cursor (`processBlock` → `reorg` → `rollback` / `disconnectBlock` with
     the cursor pull-back) — and node movements (`stepEv`): whenever the wallet is done and the follower has caught
     up with the node, the store satisfies `Inv` for the node's chain.  What is proved of it:
-    `import_exact_static_full` (no event but batches, other wallets present) and
-    `import_exact_extensions_partial` (extensions, single keystore).  Missing: (a) the follower's `filterBlock` on a
-    JOINED store (the mirror image of `addImp_join`: the book operations of the ready wallets' view commute with the
-    join — `SepR` for the `w`-half, `filterTxs` with a keystore table in which `w` is not ready); (b) `rollback` on a
-    joined store (it looks addresses up in ALL keystores and undoes both halves; with `pullBack` the `w`-half shrinks
-    to the fork point); (c) the pending-side congruence (`MinedEq`) for histories with unconfirmed transactions. -/
+    `import_exact_static_full` (no event but batches, other wallets present), `import_exact_extensions_partial`
+    (extensions, single keystore) and `import_exact_extensions_joined` (batches interleaved with tip extensions,
+    other ready wallets present, node and follower moving together).  Missing: (a) REORGANISATIONS: `rollback` /
+    `disconnectBlock` on a joined store (it looks addresses up in ALL keystores and undoes both halves; with
+    `pullBack` the `w`-half shrinks to the fork point) — C01's `rollback_connect` / `reorg_reaches` are proved for
+    stores with every wallet ready; (b) node movements that are not followed at once by their notification (a
+    batch then meets the followed-chain check: `batchHead_ok`); (c) histories with unconfirmed transactions
+    (`recvTx`): the theorems above hold for ANY content of the pending buckets but the events are mined-side only. -/
 def import_exact_moving_full : Prop :=
   ∀ (batch : Nat) (p : Params) (own : Own) (wallets : List Wid) (w : Wid) (sys0 : Sys) (evs : List Ev),
     batch > 0 → Lemmas.Ledger.KeysNodup own → w ∈ wallets →
@@ -1031,5 +1082,107 @@ example : Inv { p := ctx.p, own := ctx.own, wallets := ctx.wallets,
 example : (let r := Ex3.evs.foldl (Lemmas.ImportExact.stepX 1 ctx.p ctx.own ctx.wallets "W1") Ex3.sys0
            (r.v.best, useWallet r.s ctx.wallets "W1", walletBalance r.s "W1" 1)) =
     (⟨3, "B3"⟩, .ok, some ⟨300, 300, 0, 0⟩) := by decide
+
+-- stage 2 with another wallet in the instance: W2 (owner of X1) is followed live while W1 is rescanned with batch
+-- size 1, and block B3 (which pays W2) arrives between the batches
+namespace Ex4
+def node3 : Node := { chain := [g, b1, b2], known := ctx.node.known }
+def ctxR3 : Ctx := { ctxR with node := node3 }
+def stR3 : Store := { sync := [(2, "B2"), (1, "B1"), (0, "G")], syncedTo := 2,
+                      status := [("W2", ⟨some 0, false⟩)], balance := [("W2", 0)], addrs := [(("W2", false, "X1"), 0)] }
+def vol3 : Vol := { best := ⟨2, "B2"⟩ }
+theorem hrun : (runBatches 1000 ctxR3 "W2" 1 stR3 vol3).isSome = true := by decide
+/-- W2's store for [G, B1, B2] (produced by a rescan) -/
+def sR : Store := ((runBatches 1000 ctxR3 "W2" 1 stR3 vol3).get hrun).1
+def sys0 : Lemmas.ImportExact.XSys := ⟨node3, addW1 sR, vol3⟩
+def evs : List Lemmas.ImportExact.XEv := [.batch, .extend b3, .batch, .batch]
+end Ex4
+
+open MW.Lemmas.ImportExact MW.Lemmas.Ledger in
+theorem ex4_invR :
+    Inv { p := ctx.p, own := ctx2.own.filter (fun e => e.2.1 ≠ "W1"), wallets := ctx2.wallets, node := Ex4.node3 }
+        (addW1 Ex4.sR) Ex4.node3.chain ∧
+      (readyWallets (addW1 Ex4.sR) ctx2.wallets) = ["W2"] := by
+  have hAR : AllReady Ex4.ctxR3.own ["W2"] := by
+    intro a w' ch h
+    rw [show Ex4.ctxR3.own = [("X1", ("W2", false))] from rfl, AMap.get_cons] at h
+    split at h
+    · cases h; rfl
+    · cases h
+  have hCR : ChainOK Ex4.ctxR3 := by
+    refine ⟨by decide, ?_⟩
+    intro i b hb
+    match i with
+    | 0 => simp [Ex4.ctxR3, Ex4.node3] at hb; subst hb; rfl
+    | 1 => simp [Ex4.ctxR3, Ex4.node3] at hb; subst hb; rfl
+    | 2 => simp [Ex4.ctxR3, Ex4.node3] at hb; subst hb; rfl
+    | (n + 3) => simp [Ex4.ctxR3, Ex4.node3] at hb
+  have hSc : Scan Ex4.ctxR3 "W2" Ex4.stR3 0 := by
+    refine scan_fresh (G := g) rfl rfl rfl rfl rfl rfl rfl rfl rfl ?_ rfl
+    intro h
+    match h with
+    | 0 => rfl
+    | 1 => rfl
+    | 2 => rfl
+    | (n + 3) => simp [Ex4.stR3, Ex4.ctxR3, Ex4.node3, AMap.get, Spec.Books.syncOf]
+  have h : runBatches 1000 Ex4.ctxR3 "W2" 1 Ex4.stR3 Ex4.vol3 =
+      some (Ex4.sR, ((runBatches 1000 Ex4.ctxR3 "W2" 1 Ex4.stR3 Ex4.vol3).get Ex4.hrun).2.1,
+        ((runBatches 1000 Ex4.ctxR3 "W2" 1 Ex4.stR3 Ex4.vol3).get Ex4.hrun).2.2) :=
+    (Option.some_get Ex4.hrun).symm
+  obtain ⟨hI, hst, _, _⟩ := import_exact_static_partial 1000 (by decide) Ex4.ctxR3 "W2" hAR hCR rfl 1 Ex4.stR3 Ex4.vol3
+    Ex4.sR _ _ ⟨some 0, false⟩ 0 hSc rfl rfl rfl (by decide) (by decide) h
+  have hst2 : AMap.get (addW1 Ex4.sR).status "W2" = some ⟨none, false⟩ := by
+    show AMap.get (AMap.put Ex4.sR.status "W1" _) "W2" = _
+    rw [AMap.get_put, if_neg (by decide)]; exact hst
+  have hst1 : AMap.get (addW1 Ex4.sR).status "W1" = some ⟨some 0, false⟩ := by
+    show AMap.get (AMap.put Ex4.sR.status "W1" _) "W1" = _
+    rw [AMap.get_put, if_pos rfl]
+  have hrw : readyWallets (addW1 Ex4.sR) ctx2.wallets = ["W2"] := by
+    show List.filter _ ["W1", "W2"] = _
+    simp only [List.filter, hst1, hst2]
+    rfl
+  refine ⟨⟨⟨hI.agree.unspent, hI.agree.credits, hI.agree.debits, hI.agree.game, hI.agree.txrecs, hI.agree.blocks⟩,
+    ?_, hI.sync, hI.syncedTo⟩, hrw⟩
+  intro w' hw'
+  rw [hrw] at hw'
+  have : w' = "W2" := by simpa using hw'
+  subst this
+  show AMap.get (AMap.put Ex4.sR.balance "W1" 0) "W2" = _
+  rw [AMap.get_put, if_neg (by decide)]
+  apply hI.bal "W2"
+  show (List.filter _ ["W2"]).contains "W2" = true
+  simp only [List.filter, hst]
+  rfl
+
+open MW.Lemmas.ImportExact MW.Lemmas.ImportJoin MW.Lemmas.Ledger in
+/-- every hypothesis of `import_exact_extensions_joined` holds on this history (batch, B3 arrives and is booked for
+    W2 by the live follower, two more batches): W1 is done at the NEW tip and C01's invariant holds for BOTH wallets
+    and [G, B1, B2, B3] -/
+example : Inv { p := ctx.p, own := ctx2.own, wallets := ctx2.wallets,
+                node := (Ex4.evs.foldl (stepX 1 ctx.p ctx2.own ctx2.wallets "W1") Ex4.sys0).node }
+    (Ex4.evs.foldl (stepX 1 ctx.p ctx2.own ctx2.wallets "W1") Ex4.sys0).s [g, b1, b2, b3] := by
+  have hnode : (Ex4.evs.foldl (stepX 1 ctx.p ctx2.own ctx2.wallets "W1") Ex4.sys0).node = ctx.node := by rfl
+  obtain ⟨hI, hrw⟩ := ex4_invR
+  have := (import_exact_extensions_joined 1 (by decide) ctx.p ctx2.own ctx2.wallets "W1"
+    (by unfold KeysNodup; decide) (by decide) Ex4.sys0 Ex4.evs hI
+    (by
+      show AllReady _ (readyWallets (addW1 Ex4.sR) ctx2.wallets)
+      rw [hrw]
+      intro a w' ch ha
+      rw [show (ctx2.own.filter (fun e => e.2.1 ≠ "W1")) = [("X1", ("W2", false))] from rfl, AMap.get_cons] at ha
+      split at ha
+      · cases ha; rfl
+      · cases ha)
+    (by show (readyWallets (addW1 Ex4.sR) ctx2.wallets).isEmpty = false; rw [hrw]; rfl)
+    ⟨g, rfl, rfl⟩
+    (by show AMap.get (AMap.put Ex4.sR.status "W1" _) "W1" = _; rw [AMap.get_put, if_pos rfl])
+    (by show AMap.get (AMap.put Ex4.sR.balance "W1" 0) "W1" = _; rw [AMap.get_put, if_pos rfl])
+    rfl (by rw [hnode]; exact ex2_chainOK) (by rw [hnode]; decide)).2 (by decide)
+  rw [hnode] at this ⊢
+  exact this.1
+example : (let r := Ex4.evs.foldl (Lemmas.ImportExact.stepX 1 ctx.p ctx2.own ctx2.wallets "W1") Ex4.sys0
+           (r.v.best, useWallet r.s ctx2.wallets "W1", walletBalance r.s "W1" 1, walletBalance r.s "W2" 1,
+            (AMap.get r.s.blocks 2).map (·.2), (AMap.get r.s.blocks 3).map (·.2))) =
+    (⟨3, "B3"⟩, .ok, some ⟨300, 300, 0, 0⟩, some ⟨209, 209, 0, 0⟩, some ["C2", "T3"], some ["C4"]) := by rfl
 
 end MW.Props.C07
